@@ -15,6 +15,7 @@ ALPH = 'ACGT'
 Q_MAIN = ''.join(chr(c) for c in range(33, 85))      # '!'..'T'  (phred 0..51): below the header clamp of C04
 Q_FULL = ''.join(chr(c) for c in range(33, 127))     # every Sanger quality 0..93
 UID0 = 10000
+STALE = 8000      # ids 18000.. belong to the earlier run of a run history (libraries with a history are small)
 UID_RE = re.compile(r'(?<!\d)(1\d{4})(?!\d)')
 SPACES = [' ', '\t', '\x0b', '\x0c', '\x1c', '\x1d', '\x1e', '\x1f']
 WS = set(' \t\n\x0b\x0c\r\x1c\x1d\x1e\x1f')
@@ -49,6 +50,10 @@ class Prop(fw.PropBase):
         '(accept / NonMultiplexable / other exception) per pair is measured by calling the real strategy.demultiplex',
         'a partial write (first mate written, serialising a later mate raises) is modelled literally, excluded from the '
         'theorems by the hypothesis step_ok, and that hypothesis is CHECKED on the real code: any partial write is a violation',
+        'K only, no theorem: the command line driver demux.py __main__ (library listing, pairing of R1/R2 chunk files by sorted '
+        'name incl. list-of-files input, shared -n budget over lanes and chunks) - its runs are compared with the model of the '
+        'concatenated library in sorted-name order; run histories (an earlier run into the same directory / prefix, joint and '
+        'per-cell) - the later run must leave exactly its own records in every file it writes',
         'libraries large enough to cross HandleLimiter.prune (stream percell_prune, > 10000 record writes) are not run '
         'through the model; the specification is evaluated on their real output files directly',
         'attribution of an output record to its input pair in search() uses a unique 5-digit id the generator puts '
@@ -81,6 +86,15 @@ class Prop(fw.PropBase):
         if form == '3dec':
             return '@Cluster_s_1_%d_%d' % (uid, mate)
         return '@garbage%d/%d' % (uid, mate)
+
+    @staticmethod
+    def make_prior(files):
+        """the library of an EARLIER run into the same output location: the same reads under other ids (+5000)"""
+        out = []
+        for f in files:
+            lines = [UID_RE.sub(lambda m: str(int(m.group(1)) + STALE), l) if k % 4 in (0, 2) else l for k, l in enumerate(f['lines'])]
+            out.append({'lines': lines, 'final_eol': True})
+        return out
 
     def make_library(self, stream, strategies=None):
         rng = self.rng
@@ -174,11 +188,16 @@ class Prop(fw.PropBase):
         lib = rng.choice(['LIB', 'lib-a_b', 'X', 'APKS-P-H'])
         if stream == 'longlib':
             lib = 'L' * rng.choice([120, 150, 160, 170, 185, 200, 240])
-        return {'stream': stream, 'files': fdesc, 'eol': '\r\n' if rng.random() < 0.1 else '\n', 'use': strategies,
-                'rejects': rng.random() < 0.75, 'sc': rng.random() < 0.25, 'maxp': maxp, 'lib': lib,
-                'pe_handle': pe_handle, 'meta': meta}
+        c = {'stream': stream, 'files': fdesc, 'eol': '\r\n' if rng.random() < 0.1 else '\n', 'use': strategies,
+             'rejects': rng.random() < 0.75, 'sc': rng.random() < 0.25, 'maxp': maxp, 'lib': lib,
+             'pe_handle': pe_handle, 'meta': meta}
+        if stream == 'main' and n > 0 and rng.random() < 0.2:
+            # run history: an earlier run wrote into the same directory / prefix (re-run of a library)
+            c['prior_files'] = self.make_prior(fdesc)
+            c['sc'] = rng.random() < 0.5
+        return c
 
-    def make_main_case(self):
+    def make_main_case(self, history=False):
         """several lanes of one library through the command line driver (demux.py __main__): the lanes are processed in
         order with one shared budget -n, so the expected outcome is that of the concatenated library with maxReadPairs = n"""
         rng = self.rng
@@ -187,14 +206,26 @@ class Prop(fw.PropBase):
             if len(c['files']) <= 2 and len(c['meta']) >= 2:
                 break
         n = len(c['meta'])
-        k = rng.choice([1, 2, 2, 2, 3, 3])
+        k = rng.choice([1, 2, 2, 2, 3, 3, 4])
         cuts = sorted(rng.randint(0, n) for _ in range(k - 1))
         sizes = [b - a for a, b in zip([0] + cuts, cuts + [n])]
         sizes = [x for x in sizes if x > 0] or [n]
-        c.update({'stream': 'main_script', 'main_script': True, 'lane_sizes': sizes, 'lib': 'LIBA', 'eol': '\n',
+        # the pieces are lanes (L001, L002 ...) and chunks of a lane (_001, _002 ...), in sorted-name = processing order
+        pieces, lane, chunk = [], 1, 0
+        for x in sizes:
+            if pieces and rng.random() < 0.5:
+                chunk += 1
+            else:
+                lane, chunk = (lane + 1 if pieces else 1), 1
+            pieces.append([lane, chunk, x])
+        c.pop('prior_files', None)
+        c.update({'stream': 'main_script', 'main_script': True, 'lane_sizes': sizes, 'pieces': pieces, 'lib': 'LIBA', 'eol': '\n',
                   'pe_handle': len(c['files']) == 2,
+                  'list_seed': rng.randint(0, 10 ** 6) if rng.random() < 0.5 else None,
                   'maxp': rng.choice([None, 1, max(1, n - 1), n, n + 2, max(1, sizes[0]), sizes[0] + 1, sizes[0] + 1,
                                       rng.randint(1, n)])})
+        if history:
+            c['prior_files'] = self.make_prior(c['files'])
         return c
 
     def make_prune_case(self):
@@ -263,8 +294,8 @@ class Prop(fw.PropBase):
             cases.append(self.make_library('longlib'))
         for _ in range(80 if quick else 800):
             cases.append(self.make_reader_case())
-        for _ in range(8 if quick else 60):
-            cases.append(self.make_main_case())
+        for i in range(8 if quick else 60):
+            cases.append(self.make_main_case(history=(i % 4 == 1)))
         for _ in range(1 if quick else 2):
             cases.append(self.make_prune_case())
         return cases
@@ -337,6 +368,9 @@ class Prop(fw.PropBase):
                     key = (9, fn, 0)
                 else:
                     key = (1, m.group(1), int(m.group(2)) - 1)
+            prior = (r.get('prior_out_files') or {}).get(fn)
+            if prior is not None and prior == txt and key[1] != '':
+                continue     # per-cell file of the earlier run that this run never opened
             if txt != '':
                 out[key] = txt
         return out
@@ -638,7 +672,10 @@ class Prop(fw.PropBase):
                 rcount[u] = rcount.get(u, 0) + 1
         for u in sorted(set(tcount) | set(rcount) | set(range(consumed))):
             a, b = tcount.get(u, 0), rcount.get(u, 0)
-            if u >= consumed or u < 0:
+            if u >= STALE:
+                v.append(('stale', 'a file written by this run still holds a record of the EARLIER run into the same output '
+                          'location (pair %d of the earlier library; %d demultiplexed, %d rejected records)' % (u - STALE, a, b)))
+            elif u >= consumed or u < 0:
                 v.append(('beyond_stop', 'pair %d was written (%d demultiplexed, %d rejected) although only %d pairs are consumed'
                           % (u, a, b, consumed)))
             elif c['rejects'] and a + b != ns:
@@ -725,7 +762,10 @@ class Prop(fw.PropBase):
                 d['files'] = [{'lines': [l for p in idx for l in f['lines'][4 * p:4 * p + 4]], 'final_eol': f['final_eol']}
                               for f in cur['files']]
                 d['meta'] = [cur['meta'][p] for p in idx]
-                return self.renumber(d)
+                d = self.renumber(d)
+                if cur.get('prior_files'):
+                    d['prior_files'] = cur['prior_files']
+                return d
             if whole and n > 1 and not cur.get('main_script'):
                 cands += [keep([p]) for p in range(n)]
                 cands += [keep(list(range(p + 1))) for p in range(n - 1)]
